@@ -329,16 +329,21 @@ Print Assumptions C16_example_after_save_load.
        an LZW decoder, and [compress_doc deflate nocomp d] = Document::compress (C09's [doc_compress]: every stream that
        allows compression and gets more than COMPRESS_SLACK bytes shorter is Flate-compressed).  Assumptions about
        third-party code, stated as in C09: [implements_inflate inflate] (absent in the [gallina] instance, where lopdf's
-       filter code runs on the RFC 1950/1951 decoder of Spec/Inflate.v) and [compressible deflate objects]: for every stream
-       object, distinct dictionary keys (IndexMap) and [valid_zlib_output deflate content] (flate2's compressor writes a
-       zlib stream for its input).
-       C01's domain ([savable], [known_deep], [small_file], [unreferenced], [content_normal]) is asked of the document
-       that is SAVED, i.e. of the compressed document [compress_doc deflate nocomp d].
+       filter code runs on the RFC 1950/1951 decoder of Spec/Inflate.v) and [zlib_compressor deflate objects]: for the
+       content c of every stream object, [valid_zlib_output deflate c] (flate2's compressor writes a zlib stream for its
+       input).
+       C01's domain ([savable], [known_deep], [unreferenced], [content_normal]) is asked of the document the user
+       holds; that Document::compress keeps a document inside it is C16_compress_keeps_domain.  Only [small_file] --
+       the size of the file that is written -- is asked of the compressed document (the file is normally smaller, but the
+       dictionary grows by /Filter /FlateDecode while the content shrinks by at least COMPRESS_SLACK + 1 = 20 bytes: not
+       derived).
    ------------------------------------------------------------------------------------------ *)
-From LV Require Spec.StreamCodecSpec Proofs.ObjectRtProofs Proofs.ComposeTextDecode Proofs.ComposeTextCompress.
+From LV Require Spec.StreamCodecSpec Proofs.ObjectRtProofs Proofs.ComposeTextDecode Proofs.ComposeTextCompress
+  Proofs.ComposeTextCompressDomain.
 Section DecodeAndCompress.
   Import Model.Save Model.Xref Model.Loader Spec.SaveSpec Proofs.ComposeReload Proofs.ComposeText.
-  Import Spec.StreamCodecSpec Proofs.ObjectRtProofs Proofs.ComposeTextDecode Proofs.ComposeTextCompress.
+  Import Spec.StreamCodecSpec Proofs.ObjectRtProofs Proofs.ComposeTextDecode Proofs.ComposeTextCompress
+    Proofs.ComposeTextCompressDomain.
 
   (* Content::decode (Content::encode ops) = ops for the operations that show text (instance of C14_rt) *)
   Theorem C16_decode_written_ops :
@@ -380,7 +385,8 @@ Section DecodeAndCompress.
         extract_text [p'] [1] = Ok (shown_blocks bss).
   Proof. exact extract_written_blocks_after_save_load. Qed.
 
-  (* the page view does not change under Document::compress: same fonts, same content bytes *)
+  (* the page view does not change under Document::compress: same fonts, same content bytes
+     ([compressible]: distinct dictionary keys and a zlib stream from the compressor, for every stream object) *)
   Theorem C16_page_unchanged_by_compress :
     forall inflate lzw deflate, implements_inflate inflate ->
     forall nocomp m fuel pid,
@@ -390,58 +396,72 @@ Section DecodeAndCompress.
       Query.get_page_fonts fuel (StreamFilt.doc_compress deflate nocomp m) pid = Query.get_page_fonts fuel m pid.
   Proof. exact page_content_compress. Qed.
 
+  (* Document::compress keeps a document inside the domain of the save + load composition *)
+  Theorem C16_compress_keeps_domain :
+    forall deflate nocomp d, savable d ->
+      savable (compress_doc deflate nocomp d) /\
+      (known_deep d = false -> known_deep (compress_doc deflate nocomp d) = false) /\
+      (forall xt, unreferenced xt d -> unreferenced xt (compress_doc deflate nocomp d)) /\
+      (forall fuel pid, zlib_compressor deflate (d_objects d) ->
+         content_normal fuel (d_objects d) pid -> content_normal fuel (d_objects (compress_doc deflate nocomp d)) pid).
+  Proof.
+    intros deflate nocomp d S. split; [apply savable_compress; exact S|].
+    split; [apply known_deep_compress; exact S|].
+    split; [intros xt; apply unreferenced_compress; exact S|].
+    intros fuel pid Z.
+    apply (content_normal_compress gallina_inflate gallina_lzw deflate FilterProofsCodec.gallina_inflate_implements nocomp d fuel pid S Z).
+  Qed.
+
   (* (a) + (b): written operations -> Document::compress -> save -> load -> extract_text *)
   Theorem C16_extract_after_compress_save_load :
     forall inflate lzw deflate, implements_inflate inflate ->
     forall nocomp xt d fuel pid font t fname size ps,
-      let dc := compress_doc deflate nocomp d in
-      savable dc -> known_deep dc = false -> small_file xt dc -> unreferenced xt dc ->
-      content_normal fuel (d_objects dc) pid ->
-      compressible deflate (d_objects d) ->
+      savable d -> known_deep d = false -> unreferenced xt d -> content_normal fuel (d_objects d) pid ->
+      small_file xt (compress_doc deflate nocomp d) ->
+      zlib_compressor deflate (d_objects d) ->
       page_written (stream_decomp inflate lzw) fuel (d_objects d) pid fname font (show_ops fname size t ps) ->
       operand_dom size -> Forall piece_i64 ps ->
       get_font_encoding font = Ok (EncOneByte t) ->
       Forall (piece_over (in_repertoire t)) ps ->
       exists d' p',
-        load (so_bytes (save xt dc)) = LOk d' (xtype_of xt) /\
+        load (so_bytes (save xt (compress_doc deflate nocomp d))) = LOk d' (xtype_of xt) /\
         doc_page (stream_decomp inflate lzw) content_decode fuel (d_objects d') pid = Some p' /\
         extract_text [p'] [1] = Ok (shown_text ps).
-  Proof. exact extract_written_after_compress_save_load. Qed.
+  Proof. exact extract_written_after_compress_save_load_dom. Qed.
 
   Theorem C16_extract_blocks_after_compress_save_load :
     forall inflate lzw deflate, implements_inflate inflate ->
     forall nocomp xt d fuel pid font t inside fname size bss,
-      let dc := compress_doc deflate nocomp d in
-      savable dc -> known_deep dc = false -> small_file xt dc -> unreferenced xt dc ->
-      content_normal fuel (d_objects dc) pid ->
-      compressible deflate (d_objects d) ->
+      savable d -> known_deep d = false -> unreferenced xt d -> content_normal fuel (d_objects d) pid ->
+      small_file xt (compress_doc deflate nocomp d) ->
+      zlib_compressor deflate (d_objects d) ->
       page_written (stream_decomp inflate lzw) fuel (d_objects d) pid fname font (blocks_ops inside fname size t bss) ->
       operand_dom size -> Forall (Forall piece_i64) bss ->
       get_font_encoding font = Ok (EncOneByte t) ->
       Forall (Forall (piece_over (in_repertoire t))) bss -> Forall block_shows bss ->
       exists d' p',
-        load (so_bytes (save xt dc)) = LOk d' (xtype_of xt) /\
+        load (so_bytes (save xt (compress_doc deflate nocomp d))) = LOk d' (xtype_of xt) /\
         doc_page (stream_decomp inflate lzw) content_decode fuel (d_objects d') pid = Some p' /\
         extract_text [p'] [1] = Ok (shown_blocks bss).
-  Proof. exact extract_written_blocks_after_compress_save_load. Qed.
+  Proof. exact extract_written_blocks_after_compress_save_load_dom. Qed.
 
   (* lopdf's filter code on the Gallina decoders: the only assumption about third-party code left is the compressor's *)
   Theorem C16_extract_after_compress_save_load_gallina :
     forall deflate nocomp xt d fuel pid font t fname size ps,
-      let dc := compress_doc deflate nocomp d in
-      savable dc -> known_deep dc = false -> small_file xt dc -> unreferenced xt dc ->
-      content_normal fuel (d_objects dc) pid ->
-      compressible deflate (d_objects d) ->
+      savable d -> known_deep d = false -> unreferenced xt d -> content_normal fuel (d_objects d) pid ->
+      small_file xt (compress_doc deflate nocomp d) ->
+      zlib_compressor deflate (d_objects d) ->
       page_written (stream_decomp gallina_inflate gallina_lzw) fuel (d_objects d) pid fname font (show_ops fname size t ps) ->
       operand_dom size -> Forall piece_i64 ps ->
       get_font_encoding font = Ok (EncOneByte t) ->
       Forall (piece_over (in_repertoire t)) ps ->
       exists d' p',
-        load (so_bytes (save xt dc)) = LOk d' (xtype_of xt) /\
+        load (so_bytes (save xt (compress_doc deflate nocomp d))) = LOk d' (xtype_of xt) /\
         doc_page (stream_decomp gallina_inflate gallina_lzw) content_decode fuel (d_objects d') pid = Some p' /\
         extract_text [p'] [1] = Ok (shown_text ps).
   Proof.
-    intro deflate. exact (extract_written_after_compress_save_load gallina_inflate gallina_lzw deflate FilterProofsCodec.gallina_inflate_implements).
+    intro deflate.
+    exact (extract_written_after_compress_save_load_dom gallina_inflate gallina_lzw deflate FilterProofsCodec.gallina_inflate_implements).
   Qed.
 
   (* ANY pages, ANY Content::decode: Document::compress + save + load changes no extracted chunk and no extracted text
@@ -449,17 +469,17 @@ Section DecodeAndCompress.
   Theorem C16_extract_same_after_compress_save_load :
     forall inflate lzw deflate, implements_inflate inflate ->
     forall decode nocomp xt d fuel pids pages nums,
-      let dc := compress_doc deflate nocomp d in
-      savable dc -> known_deep dc = false -> small_file xt dc -> unreferenced xt dc ->
-      Forall (fun pid => lookup (d_objects dc) pid <> None /\ content_normal fuel (d_objects dc) pid) pids ->
-      compressible deflate (d_objects d) ->
+      savable d -> known_deep d = false -> unreferenced xt d ->
+      Forall (fun pid => lookup (d_objects d) pid <> None /\ content_normal fuel (d_objects d) pid) pids ->
+      small_file xt (compress_doc deflate nocomp d) ->
+      zlib_compressor deflate (d_objects d) ->
       Forall2 (fun pid p => doc_page (stream_decomp inflate lzw) decode fuel (d_objects d) pid = Some p) pids pages ->
       exists d' pages',
-        load (so_bytes (save xt dc)) = LOk d' (xtype_of xt) /\
+        load (so_bytes (save xt (compress_doc deflate nocomp d))) = LOk d' (xtype_of xt) /\
         Forall2 (fun pid p => doc_page (stream_decomp inflate lzw) decode fuel (d_objects d') pid = Some p) pids pages' /\
         extract_text_chunks pages' nums = extract_text_chunks pages nums /\
         extract_text pages' nums = extract_text pages nums.
-  Proof. exact extract_same_after_compress_save_load. Qed.
+  Proof. exact extract_same_after_compress_save_load_dom. Qed.
 End DecodeAndCompress.
 
 Print Assumptions C16_decode_written_ops.
@@ -467,6 +487,7 @@ Print Assumptions C16_decode_written_blocks.
 Print Assumptions C16_extract_written_after_save_load.
 Print Assumptions C16_extract_written_blocks_after_save_load.
 Print Assumptions C16_page_unchanged_by_compress.
+Print Assumptions C16_compress_keeps_domain.
 Print Assumptions C16_extract_after_compress_save_load.
 Print Assumptions C16_extract_blocks_after_compress_save_load.
 Print Assumptions C16_extract_after_compress_save_load_gallina.
@@ -478,14 +499,14 @@ Print Assumptions C16_extract_same_after_compress_save_load.
    Document::compress really rewrites the content stream (Filter FlateDecode, Length 57).  Both the document and the
    compressed document meet C01's domain in both cross-reference formats, and the page view of the compressed document
    -- lopdf's filter code on the Gallina inflate, then C14's Content::decode -- is the page of C16_extract_shown_text. *)
-From LV Require Gen.Filters Proofs.ComposeTextExample.
+From LV Require Gen.Filters Proofs.ComposeTextCompressDomain Proofs.ComposeTextExample.
 Section DecodeAndCompressExample.
   Import Model.Save Model.Xref Model.Loader Spec.SaveSpec Proofs.ComposeReload Proofs.ComposeText.
   Import Spec.StreamCodecSpec Proofs.ObjectRtProofs Proofs.ComposeTextDecode Proofs.ComposeTextCompress Proofs.ComposeTextExample.
 
   Theorem C16_example_after_compress_save_load :
     (forall c, valid_zlib_output ex_deflate c) /\
-    compressible ex_deflate (d_objects ex_cdoc) /\
+    compressible ex_deflate (d_objects ex_cdoc) /\ ComposeTextCompressDomain.zlib_compressor ex_deflate (d_objects ex_cdoc) /\
     savable ex_cdoc /\ known_deep ex_cdoc = false /\ small_file XTable ex_cdoc /\ small_file XStream ex_cdoc /\
     unreferenced XTable ex_cdoc /\ unreferenced XStream ex_cdoc /\
     content_normal 200 (d_objects ex_cdoc) (3, 0) /\
@@ -502,7 +523,10 @@ Section DecodeAndCompressExample.
     Forall (piece_over (in_repertoire ex_table)) ex_long_pieces /\
     doc_page (stream_decomp gallina_inflate gallina_lzw) content_decode 200 (d_objects (compress_doc ex_deflate [] ex_cdoc)) (3, 0)
       = Some (page_showing (bs "F1") ex_font (OInt 12) ex_table ex_long_pieces).
-  Proof. exact ex_compress_after_save_load. Qed.
+  Proof.
+    destruct ex_compress_after_save_load as (V & H). split; [exact V|]. destruct H as (C & H). split; [exact C|].
+    split; [intros id sd c _; apply V | exact H].
+  Qed.
 End DecodeAndCompressExample.
 
 Print Assumptions C16_example_after_compress_save_load.
